@@ -1108,6 +1108,14 @@ class SocketAsyncRPCClient(_SocketClientState, BaseAsyncRPCClient):
         self._pending[call_id] = _PendingCall(call, future)
         try:
             await _send_stream_message(self._writer, call_id, request)
+        except asyncio.CancelledError:
+            # The whole request is in the write buffer already (only the flush was awaited),
+            # so it may still reach the server and be answered.
+            # The entry stays, with a cancelled future that the receive loop skips:
+            # an unknown call id in a response would end the receive loop
+            # and fail every other call in flight on this client.
+            future.cancel()
+            raise
         except BaseException:
             # A request that was not sent gets no response, so this future is never awaited.
             # It must not be left behind for the receive loop to fail,
